@@ -218,6 +218,100 @@ func c08Deep(r *core.Run, p *route.Parser) {
 	})
 }
 
+// c08SiblingFamilies: five routes that differ in the kind of the segment at one position (as subtrees and
+// as leaves). Every order of registering them is a valid history; afterwards each of them registered
+// again is a duplicate, and a differently named match-all at the position is refused.
+var c08SiblingFamilies = [][]string{
+	{"/s/about/x", "/s/contact/y", "/s/{user}/p", "/s/{r: /[0-9]+/}/q", "/s/{path: **}/raw", "/s/{other: **}/raw"},
+	{"/f/index", "/f/help", "/f/{name}", "/f/{id: /[0-9]+/}", "/f/{path: **}", "/f/{other: **}"},
+}
+
+func c08Siblings(r *core.Run, p *route.Parser) {
+	perms := func(n int) [][]int {
+		var out [][]int
+		var rec func(cur []int, used int)
+		rec = func(cur []int, used int) {
+			if len(cur) == n {
+				out = append(out, append([]int{}, cur...))
+				return
+			}
+			for i := 0; i < n; i++ {
+				if used&(1<<i) == 0 {
+					rec(append(cur, i), used|1<<i)
+				}
+			}
+		}
+		rec(nil, 0)
+		return out
+	}(5)
+	r.Bounds["sibling_insertion_histories"] = fmt.Sprintf("%d families x %d orders of five siblings, each followed by every duplicate and a second match-all", len(c08SiblingFamilies), len(perms))
+	type job struct {
+		fam  int
+		perm []int
+	}
+	var jobs []job
+	for fi := range c08SiblingFamilies {
+		for _, pm := range perms {
+			jobs = append(jobs, job{fi, pm})
+		}
+	}
+	r.Parallel(func(w, nw int, l *core.Local) {
+		m := ref.NewMatcher()
+		mk := func(t string) c08Entry {
+			e := c08Entry{Text: t}
+			e.Ref, e.Gram, e.Determined = ref.Parse(t)
+			if ast, err := p.Parse(t); err == nil {
+				e.AST = ast
+			}
+			return e
+		}
+		for ji := w; ji < len(jobs); ji += nw {
+			fam := c08SiblingFamilies[jobs[ji].fam]
+			var order []string
+			for _, i := range jobs[ji].perm {
+				order = append(order, fam[i])
+			}
+			// then: every one of the five again, and the differently named match-all, in the family's order
+			tail := append(append([]string{}, fam[:5]...), fam[5])
+			for ti := range tail {
+				// a fresh tree per probe of the tail: five registrations, then ONE further attempt
+				tree, trie := route.NewTree(), ref.NewTrie()
+				var hist []string
+				ok := true
+				for _, t := range order {
+					l.Evals++
+					l.Transitions++
+					l.Traces++
+					v, bad, key := c08Step(m, tree, trie, mk(t))
+					if bad != "" {
+						l.Class("mismatch")
+						l.Violate("tree/"+key+"/sibling-insertion", bad+fmt.Sprintf(" [registered %q, candidate %q]", hist, t), c08Case{Registered: append([]string{}, hist...), Candidate: t})
+						ok = false
+						break
+					}
+					l.Class("candidate:" + v)
+					hist = append(hist, t)
+				}
+				if !ok {
+					break
+				}
+				l.States++
+				l.Evals++
+				l.Transitions++
+				l.Traces++
+				l.NonTrivial++
+				v, bad, key := c08Step(m, tree, trie, mk(tail[ti]))
+				if bad != "" {
+					l.Class("mismatch")
+					l.Violate("tree/"+key+"/sibling-insertion", bad+fmt.Sprintf(" [registered %q, candidate %q]", hist, tail[ti]), c08Case{Registered: append([]string{}, hist...), Candidate: tail[ti]})
+					break
+				}
+				l.Class("candidate:" + v)
+			}
+		}
+	})
+}
+
 func c08Shape(r ref.Route) string {
 	var parts []string
 	for _, s := range r.Segs {
@@ -362,6 +456,7 @@ func c08Run(r *core.Run) {
 	})
 
 	c08Deep(r, p)
+	c08Siblings(r, p)
 
 	// flame level: methods, panics
 	methods := []string{"GET", "POST", "PUT", "DELETE", "PATCH", "OPTIONS", "HEAD", "CONNECT", "TRACE", "*", "get", "BREW", "", "GET,POST", " GET"}
